@@ -49,13 +49,21 @@ struct MpiVis {
 	template<class V> void final(V&& v, MV const& m) {
 		constexpr int D = rank_of<V>; if(m.has_zero()) return; L const N = m.n(); if(N > 4000) return;
 		std::string const K = "C18:"; std::size_t const live0 = tl().created.size();
-		{
+		bool const rb = g->chance(1, 4); L const rb0 = g->in(-3, 4); L rb1 = g->in(-3, 3); if(rb1 == 0) rb1 = 2; if(rb) { count("re-based-source-views"); describe(" (source re-based)"); sig_mix("rb"); }
+		auto body = [&](auto&& v) {  // v: the view itself, or (one time in four) its twin with other first indices: the message denotes the same elements
 			// the four documented ways to build the same message (the skeleton forms move the committed datatype handle)
-			int const form = int(g->below(4)); static char const* FN[] = {"message(elements)", "message(buf,skeleton&&)", "message(buf,move(named skeleton))", "message(buf,layout,datatype)"};
+			// (mpi::data(iterator) is not in this list: MPI_Type_vector(1, 1, stride) has the extent of ONE element, so `count` of them are contiguous elements whatever the stride;
+			//  the repository's own mpi.cpp expects exactly that ({1,2,3} from AA.strided(2) of {1..6}), and C18 speaks about messages built from elements(): observation in DESIGN.md, no verdict)
+			int const form = int(g->below(6)); static char const* FN[] = {"message(elements)", "message(buf,skeleton&&)", "message(buf,move(named skeleton))", "message(buf,layout,datatype)", "skeleton<T>(layout)+base", "create_subarray(layout)+base"};
+			std::optional<mpi::skeleton<T, int>> sko; MPI_Datatype rawt = MPI_DATATYPE_NULL; void* mb = nullptr; int mc = 0; MPI_Datatype md = MPI_DATATYPE_NULL;
+			void* const vb = const_cast<void*>(static_cast<void const*>(v.base()));
 			op(FN[form]); count(std::string("form:") + FN[form]); sig_mix(std::uint64_t(form)); std::optional<mpi::message<>> msgo; void* const bp = const_cast<void*>(static_cast<void const*>(v.elements().base()));
 			switch(form) { case 0: msgo.emplace(v.elements()); break; case 1: msgo.emplace(bp, mpi::skeleton<void, int>(v.elements().layout(), mpi::datatype<T>)); break;
-				case 2: { mpi::skeleton<void, int> sk(v.elements().layout(), mpi::datatype<T>); msgo.emplace(bp, std::move(sk)); break; } default: msgo.emplace(bp, v.elements().layout(), mpi::datatype<T>); break; }
-			mpi::message<>& msg = *msgo;
+				case 2: { mpi::skeleton<void, int> sk(v.elements().layout(), mpi::datatype<T>); msgo.emplace(bp, std::move(sk)); break; } case 3: msgo.emplace(bp, v.elements().layout(), mpi::datatype<T>); break;
+				case 4: sko.emplace(v.layout()); mb = vb; mc = sko->count(); md = sko->datatype(); break;  // the older interface: (base(), count, datatype) from the view's own layout
+				default: mpi::create_subarray(v.layout(), mpi::datatype<T>, &rawt); MPI_Type_commit(&rawt); mb = vb; mc = 1; md = rawt; break; }
+			if(msgo) { mb = msgo->buffer(); mc = msgo->count(); md = msgo->datatype(); }
+			struct { void* b; int c; MPI_Datatype d; void* buffer() const { return b; } int count() const { return c; } MPI_Datatype datatype() const { return d; } } const msg{mb, mc, md};
 			// (1) MPI_Pack of the message == the canonical element sequence
 			std::vector<char> pk(std::size_t(N) * sizeof(T) + 64, char(0x5A)); int pos = 0; op("MPI_Pack");
 			MPI_Pack(msg.buffer(), msg.count(), msg.datatype(), pk.data(), int(pk.size()), &pos, MPI_COMM_SELF);
@@ -72,8 +80,10 @@ struct MpiVis {
 				for(L k = 0; k < N; ++k) { L o = dm.off[std::size_t(k)]; in[std::size_t(o)] = 1; if(!(dbase[o] == base[m.off[std::size_t(k)]])) violation(K + (sendrecv ? "sendrecv" : "unpack") + ":k-th-to-k-th", "element " + std::to_string(k) + " of the source view did not arrive at element " + std::to_string(k) + " of the destination view"); }
 				for(L o = 0; o < dn; ++o) if(!in[std::size_t(o)] && !(dbase[o] == dsnap[std::size_t(o)])) violation(K + (sendrecv ? "sendrecv" : "unpack") + ":outside-destination-view", "an element outside the destination view was overwritten");
 			});
+			if(rawt != MPI_DATATYPE_NULL) MPI_Type_free(&rawt);
 			count("messages", 2); count("elements_compared", N);
-		}
+		};
+		if(rb) { if constexpr(D >= 2) { body(v.reindexed(rb0, rb1)); } else { body(v.reindexed(rb0 == 0 ? L(-2) : rb0)); } } else { body(v); }
 		// (3) datatype lifecycle: everything created for the messages has been freed exactly once, committed before use
 		op("datatype-ledger");
 		for(auto const& p : tl().problems) violation(K + "datatype:" + (p.find("uncommitted") != std::string::npos ? "used-uncommitted" : p.find("double free") != std::string::npos ? "double-free" : "lifecycle"), p, false);
